@@ -88,6 +88,10 @@ func (p *PacketProcessor) ProcessPacketData(data []byte, _ *gopacket.CaptureInfo
 	if !validPacket(p.rcvDecoded) {
 		return
 	}
+	// IP version is not verified by the decoder
+	if p.rcvIP.Version != 4 {
+		return
+	}
 
 	p.results.Put(&ScanResult{
 		ScanType: p.scanType,
